@@ -1,0 +1,20 @@
+// Copyright (c) Microsoft Corporation
+// SPDX-License-Identifier: MIT
+
+//! Library facade used only by the external verification harness.
+//! It is compiled to an empty crate unless the `verif` feature is enabled;
+//! the extension itself is built from `main.rs` and is not affected.
+//! `handler_main` is left out: it depends on the command-line types defined in `main.rs`.
+#![cfg(feature = "verif")]
+#![allow(non_snake_case)]
+
+pub mod common;
+pub mod constants;
+pub mod error;
+pub mod logger;
+pub mod result;
+pub mod service_main;
+pub mod structs;
+
+#[cfg(not(windows))]
+pub mod linux;
